@@ -672,6 +672,27 @@ func (x *Exec) next(st *State, fr *Frame, v *ssa.Next) {
 	okv := x.E.fresh("mapnext", BoolS)
 	kv := x.freshVal("mapk", mt.Key(), st)
 	vv := x.freshVal("mapv", mt.Elem(), st)
+	if vis, has := st.ghost[key+"!vis"]; has && len(kv.L) == 1 && len(vv.L) == 1 {
+		// iteration over a map with scalar keys and elements: every produced key is
+		// present; while the map is unchanged since the range statement no key is
+		// produced twice and the iteration ends only when every key was produced
+		// (Go specification, "For statements with range clause", item 3).
+		pk, vk, ps, vs := x.mapArrays(st, mt)
+		presNow := Select(x.heapArr(st, pk, ps), src.L[0])
+		valNow := Select(x.heapArr(st, vk, vs), src.L[0])
+		p0 := st.ghost[key+"!p0"]
+		same := Eq(presNow, p0)
+		k := kv.L[0]
+		st.assume(Implies(okv, And(Select(presNow, k), Eq(vv.L[0], Select(valNow, k)))))
+		st.assume(Implies(And(okv, same), Not(Select(vis, k))))
+		j := x.E.fresh("k", k.S)
+		st.assume(Implies(And(Not(okv), same), Forall([]*Term{j}, Implies(Select(p0, j), Select(vis, j)))))
+		st.ghost[key+"!vis"] = Ite(okv, Store(vis, k, TrueT), vis)
+		if x.dry {
+			x.dryEff.ghost[key+"!vis"] = true
+		}
+		x.E.noteAssumption("map range: every produced key is present in the map; over a map that is not modified during the loop each key is produced exactly once (Go specification)")
+	}
 	L := []*Term{okv}
 	L = append(L, kv.L...)
 	L = append(L, vv.L...)
@@ -687,7 +708,7 @@ func (x *Exec) rangeGhost(st *State, suffix string) *Term {
 	var found *Term
 	n := 0
 	for k, t := range st.ghost {
-		if strings.HasPrefix(k, "iter!") && !strings.HasSuffix(k, "!cur") {
+		if strings.HasPrefix(k, "iter!") && !strings.HasSuffix(k, "!cur") && !strings.HasSuffix(k, "!vis") && !strings.HasSuffix(k, "!p0") {
 			found = t
 			n++
 		}
